@@ -16,9 +16,11 @@ import (
 	margintypes "github.com/Sifchain/sifnode/x/margin/types"
 	oracletypes "github.com/Sifchain/sifnode/x/oracle/types"
 	tokenregistrytypes "github.com/Sifchain/sifnode/x/tokenregistry/types"
+	"github.com/cosmos/cosmos-sdk/crypto/keys/ed25519"
 	sdk "github.com/cosmos/cosmos-sdk/types"
 	banktypes "github.com/cosmos/cosmos-sdk/x/bank/types"
 	minttypes "github.com/cosmos/cosmos-sdk/x/mint/types"
+	stakingtypes "github.com/cosmos/cosmos-sdk/x/staking/types"
 
 	"sifverif/chain"
 	"sifverif/env"
@@ -83,7 +85,7 @@ func newC08World() *c08World {
 			accts = append(accts, w.holder[r], w.allBut[r])
 		}
 		for _, a := range accts {
-			g.Balances[a.Addr.String()] = sdk.NewCoins(sdk.NewCoin("rowan", funds), sdk.NewCoin("ceth", funds), sdk.NewCoin("cusdc", funds))
+			g.Balances[a.Addr.String()] = sdk.NewCoins(sdk.NewCoin("rowan", funds), sdk.NewCoin("ceth", funds), sdk.NewCoin("cusdc", funds), sdk.NewCoin("stake", funds)).Sort()
 		}
 		g.Admins = nil
 		for r, t := range roleType {
@@ -423,6 +425,48 @@ func C08(c Ctx) *report.Report {
 				cases = append(cases, e.Coq())
 				rep.Sample(desc)
 			}
+		}
+	}
+	// ---- the signer must have signed: a transaction naming the role holder as the signer of the privileged message, signed
+	// by somebody else, carried together with a staking message that the commission / voting-power decorator refuses (a
+	// validator created with a commission of 1%) ----
+	for idx, ent := range tbl {
+		method := ent.Module + "." + ent.Method
+		if sr, ok := spec[method]; ok {
+			ent.Role = sr
+		}
+		if ent.Role == "NONE" || ent.Role == "MISSING" || idx%2 != 0 {
+			continue
+		}
+		wa, wb := newC08World(), newC08World()
+		wa.prepare()
+		wb.prepare()
+		holder := wa.holder[ent.Role]
+		msg := wa.build(method, holder)
+		if msg == nil {
+			continue
+		}
+		bond := wa.App.StakingKeeper.BondDenom(wa.Ctx())
+		pk := ed25519.GenPrivKeyFromSecret([]byte("c08-forged-cons")).PubKey()
+		del, err := stakingtypes.NewMsgCreateValidator(sdk.ValAddress(wa.nobody.Addr), pk, sdk.NewCoin(bond, sdk.NewInt(1000000)), stakingtypes.NewDescription("n", "", "", "", ""),
+			stakingtypes.NewCommissionRates(sdk.NewDecWithPrec(1, 2), sdk.NewDecWithPrec(20, 2), sdk.NewDecWithPrec(1, 2)), sdk.OneInt())
+		if err != nil {
+			panic(err)
+		}
+		res := wa.Deliver(chain.DefaultFee(), 5_000_000, []chain.Account{wa.nobody, wa.nobody}, del, msg)
+		noop := banktypes.NewMsgSend(wb.nobody.Addr, wb.trader.Addr, sdk.NewCoins(sdk.NewCoin("cusdc", sdk.NewIntFromBigInt(chain.E(40)))))
+		resB := wb.Tx(wb.nobody, noop)
+		ha, hb := wa.commitHash(), wb.commitHash()
+		id++
+		desc := map[string]interface{}{"message": method, "required_role": ent.Role, "named_signer": "the role holder", "signed_by": "an account without roles (both signature slots)",
+			"carried_with": "MsgCreateValidator with a commission of 1%", "code": res.Code, "log": trunc(res.Log, 140), "reference_code": resB.Code}
+		rep.Count("forged-signer." + okStr(res.Code == 0))
+		if res.Code == 0 {
+			rep.Violate("C08/executed-without-signature/"+method, fmt.Sprintf("%s naming the %s holder as signer was executed in a transaction the holder did not sign", method, ent.Role), desc)
+		} else if !bytes.Equal(ha, hb) && resB.Code != 0 {
+			// (the reference fails in the message, the forged transaction in the ante handler: fee and sequence handling differ;
+			// only an accepted transaction is a violation here)
+			rep.Count("forged-signer.rejected-other-hash")
 		}
 	}
 	// ---- role-table histories: add / remove take effect for the very next message ----
